@@ -31,14 +31,20 @@ MANIFEST = {
             'component (currents drawn per node, constitutive residual per branch row) for arbitrary node/branch indices '
             '(grounded, coinciding), parameters and any characteristic-0 field; by induction over the netlist the assembled '
             'MNA system holds iff KCL and every constitutive relation hold; the unknown-ordering model has no duplicates and is '
-            'complete.  The value definitions of the independent-source classes are regenerated from lcapy/oneport.py and proved equal '
+            'complete.  Wires: Lcapy stamps no wire but merges the nodes wires join; the merging is modelled as a sequential contraction '
+            '(LT.WireMerge.merge) and proved equivalent to treating every wire as an ideal conductor (equal potentials at its ends, any current): '
+            'a flow of wire currents balancing every raw node exists iff the demands of every merged class sum to zero (flow_exists, merged_balance, '
+            'by induction over the wire list), hence the MNA system of the merged netlist holds iff the raw circuit with ideal wires is satisfied '
+            '(merged_to_wires, wires_to_merged, mna_wires), for ANY index map with the kernel of the contraction - a decidable check evaluated in Coq on '
+            'the node indices Lcapy used.  The value definitions of the independent-source classes are regenerated from lcapy/oneport.py and proved equal '
             'to their specification (an ac source of amplitude a and phase phi is the phasor a E(j phi), for EVERY function E).  '
             'Assembly, ordering, reporting, the per-kind source values and the solver contract (A x = Z for each solver method) are tied to the '
             'real code by evaluating the model inside Coq on generated netlists, over Q for the dc/Laplace kinds and over the '
             'Gaussian rationals Q(i) for the phasor (ac) kinds and the noise kinds (at omega = w0); resistive circuits (time-domain kind) are evaluated at an instant t0 > 0.',
     'note': 'Trusted: Coq kernel/vm_compute; tools/tr_stamps.py; spec coq/theory/Circuit.v (physical semantics, App. B); hand models '
             'coq/theory/MNA.v + props/C01model.v (ordering, assembly, reporting) validated by correspondence; sympy linear solve, '
-            'eps-limit and node merging are modelled as oracles whose contract is checked per case, not verified; component '
+            'and the eps-limit are modelled as oracles whose contract is checked per case, not verified; node merging is inside the model '
+            '(coq/theory/WireMerge.v, props/C01wire.v; the rule which components imply a wire - W, and ports 1/3 of TL/TP - is mirrored by hand in the check); component '
             'parameters (Y, Z, Isc, Voc per analysis kind) are inputs of the theorem and are checked against textbook laws by the search oracle.',
     'technique': 'Coq proof over stamps and source definitions translated from source + induction over netlists + in-Coq correspondence evaluation (Q and Q(i)) + textbook-law search oracle',
 }
@@ -397,7 +403,7 @@ def oracle(case, kd, s0):
 
 
 # ---- cases file ------------------------------------------------------------------
-HEADER = ('Require Import LT.FieldSec LT.QcI LT.Circuit LT.MNA LT.Sources Gen.StampsGen Gen.C01model Gen.SourcesGen.\n'
+HEADER = ('Require Import LT.FieldSec LT.QcI LT.Circuit LT.MNA LT.Sources LT.WireMerge Gen.StampsGen Gen.C01model Gen.SourcesGen.\n'
           'Local Open Scope Z_scope.\n')
 
 
@@ -475,6 +481,41 @@ def build_checks(ci, case, wres, tr, res, point_eps):
             else:
                 exp.append('(999%nat, false)')
         checks.append(('%d/%s/unknowns' % (ci, kind), defn, 'check_unknowns %s %s [%s]' % (KN, es, '; '.join(exp))))
+        # node merging: Lcapy stamps no wire, it merges the nodes wires join.  The indices it used must have the
+        # kernel of the sequential contraction LT.WireMerge.merge of the wires (hypothesis kern_ok of the theorems
+        # merged_to_wires / wires_to_merged / mna_wires of props/C01wire.v), and every terminal index must be the
+        # image of its raw node.  Raw ids: ground '0' = -1, the other node names 0, 1, ... in sorted order.
+        if any(e.get('eqn') for e in kd['elements']):
+            res.count('merge_check_skipped_internal_equipotential_nodes')
+        else:
+            rid, nxt = {}, 0
+            for nme in sorted(kd['node_index']):
+                if nme == '0':
+                    rid[nme] = -1
+                else:
+                    rid[nme] = nxt
+                    nxt += 1
+            wl = []
+            for e in kd['elements']:
+                if e['type'] == 'W':
+                    wl.append((e['nodes'][0], e['nodes'][1]))
+                elif e['type'].startswith('TL') or e['type'].startswith('TP'):
+                    wl.append((e['nodes'][1], e['nodes'][3]))      # netlistmixin.equipotential_nodes: V2' = V1' is assumed
+            if all(a in rid and b_ in rid for a, b_ in wl) and all(nd in rid for e in kd['elements'] for nd in e['nodes'][:len(e['nidx'])]):
+                idxf = '(fun x => match x with %s_ => -1 end)' % ''.join(
+                    '%d => %d | ' % (rid[nme], kd['node_index'][nme]) for nme in sorted(kd['node_index']) if rid[nme] >= 0)
+                nlz = '[%s]' % '; '.join(str(i) for i in range(nxt))
+                wz = '[%s]' % '; '.join('(%d, %d)' % (rid[a], rid[b_]) for a, b_ in wl)
+                checks.append(('%d/%s/merge' % (ci, kind), None, 'kern_okb %s %s %s' % (nlz, wz, idxf)))
+                prs = ['(%d, %d)' % (rid[nd], ix) for e in kd['elements'] for nd, ix in zip(e['nodes'], e['nidx'])]
+                prs.append('(-1, %d)' % kd['node_index'].get('0', -1))
+                checks.append(('%d/%s/nodeidx' % (ci, kind), None,
+                               'forallb (fun p => Z.eqb (%s (fst p)) (snd p)) [%s]' % (idxf, '; '.join(prs))))
+                res.count('node_merging_checked')
+                if wl:
+                    res.count('node_merging_checked_with_wires')
+            else:
+                res.count('merge_check_skipped_unknown_node')
         # entries
         A, Zv = kd['A'], kd['Z']
         nn = len(kd['node_list']) - 1
@@ -593,6 +634,13 @@ CORPUS = [
     {'netlist': ['V1 1 0 step 2', 'R1 1 2 1', 'L1 2 0 8 -1', 'L2 3 0 2', 'R2 3 0 4', 'K1 L2 L1 {3/4}', 'C1 3 0 1 2'], 'tags': ['corpus', 'K', 'ic'], 's0': '2/1', 'methods': ['DM']},
     # causal circuit with mutual inductance, evaluated at a negative real s (sqrt(s**2) is not s there)
     {'netlist': ['V1 1 0 step 1', 'R1 1 2 1', 'L1 2 0 1', 'L2 3 0 1', 'K1 L1 L2 {1/2}', 'R2 3 0 1'], 'tags': ['corpus', 'K'], 's0': '-3/2', 'methods': ['DM', 'LU']},
+    # wire-merged nodes: chains of wires, a wire loop, classes merged with classes, wires into ground, underscore names
+    {'netlist': ['V1 1 0 step 5', 'W 1 2', 'W 2 3', 'W 3 4', 'R1 4 5 2', 'W 5 6', 'C1 6 0_1 3', 'W 0_1 0', 'W 0 0_2', 'R2 3 0_2 4'],
+     'tags': ['corpus', 'wires'], 's0': '3/2', 'methods': ['DM', 'LU']},
+    {'netlist': ['V1 1 0 dc 3', 'W 1 2', 'W 3 4', 'W 5 6', 'W 2 3', 'W 4 5', 'R1 6 0 2', 'R2 3 7 1', 'W 7 8', 'W 8 0', 'W 9 3', 'R3 9 10 5', 'W 10 0'],
+     'tags': ['corpus', 'wires', 'dc'], 's0': '1/1', 'methods': ['DM', 'GE']},
+    {'netlist': ['I1 a 0 step 2', 'W a b', 'W b c', 'W c a', 'R1 c d 3', 'L1 d e 2 1', 'W e f_1', 'W f_1 f_2', 'R2 f_2 0 1', 'E1 g 0 b e 2', 'R3 g 0 4'],
+     'tags': ['corpus', 'wires'], 's0': '2/3', 'methods': ['DM', 'LU']},
     # phasor (ac) analysis over the Gaussian rationals: sources with quarter-turn phases, two frequencies + dc
     {'netlist': ['I1 1 0 ac 2 {pi/2} 3', 'R1 1 2 2', 'C1 2 0 {1/3}', 'R2 1 0 1'], 'tags': ['corpus', 'ac'], 's0': '2/1', 'methods': ['DM', 'LU'], 'api': False},
     {'netlist': ['V1 1 0 ac 5 {-pi/2} 2', 'R1 1 2 2', 'L1 2 3 2', 'I1 3 0 ac 2 {pi/2} 2', 'R2 3 0 1', 'V2 3 4 dc 2', 'R3 4 0 1',
@@ -610,7 +658,7 @@ def log(msg):
 def run(tier='quick', replay=None):
     res = core.Result(PID, tier)
     rng = random.Random(core.seed() * 7919 + 1)
-    core.ensure_theory(['FieldSec', 'QcI', 'Circuit', 'MNA', 'CircuitLinear', 'Sources'])
+    core.ensure_theory(['FieldSec', 'QcI', 'Circuit', 'MNA', 'CircuitLinear', 'Sources', 'WireMerge'])
     w = core.Work(PID)
     violations = []
     try:
@@ -620,7 +668,8 @@ def run(tier='quick', replay=None):
                        'hand model of the per-kind selection of source values coq/theory/Sources.v value_at (validated by correspondence)',
                        'specification coq/theory/Circuit.v (physical semantics of each component kind)',
                        'hand models coq/theory/MNA.v, coq/props/C01model.v (validated by correspondence)',
-                       'oracles (modelled, contract checked per case): sympy matrix solve, eps -> 0 limit, node merging/indexing']
+                       'oracles (modelled, contract checked per case): sympy matrix solve, eps -> 0 limit',
+                       'node merging: model coq/theory/WireMerge.v (merge), the kernel check kern_okb is evaluated in Coq on the indices Lcapy used; which components imply a wire (W; nodes 1 and 3 of TL/TP) is mirrored by hand from NetlistMixin.equipotential_nodes']
         res.assumptions = ['characteristic-0 field with decidable equality',
                            'component parameters (Y, Z, Isc, Voc, gains) are inputs of the stamp theorems; their values per analysis kind are checked by the textbook oracle']
         log('translate')
@@ -664,7 +713,7 @@ def run(tier='quick', replay=None):
                 res.failed_obl.append(('StampsGen', 'StampsGen.v', out[-800:]))
                 res.obligations += 1
             else:
-                for f in ('C01model.v', 'C01.v', 'C01net.v'):
+                for f in ('C01model.v', 'C01.v', 'C01net.v', 'C01wire.v'):
                     texts[f] = open(os.path.join(core.VERIF, 'coq', 'props', f)).read()
                     w.write(f, texts[f])
                 bad = core.gate_text('generated+props', '\n'.join(texts.values()))
@@ -682,11 +731,16 @@ def run(tier='quick', replay=None):
                     res.obligations += 1
                 allr = dict(r1)
                 allr.update(r2)
+                if r2 and r2['C01net.v'][0]:
+                    allr.update(core.coqc_many(w.dir, ['C01wire.v'], timeout=600))
+                else:
+                    res.failed_obl.append(('mna_wires', 'C01wire.v', 'not checked: a prerequisite file failed'))
+                    res.obligations += 1
                 res.coq_results(w.dir, allr, {f: texts[f] for f in allr})
                 res.extra['coq_seconds'] = {f: round(r[2], 1) for f, r in allr.items()}
                 res.extra['unsupported_stamps'] = tr.unsupported
         # theory obligations (MNA.v, Circuit.v) are checked by the setup build; count them
-        for f in ('MNA.v', 'Circuit.v', 'CircuitLinear.v'):
+        for f in ('MNA.v', 'Circuit.v', 'CircuitLinear.v', 'WireMerge.v'):
             names = core.obligations_in(open(os.path.join(core.COQ_THEORY, f)).read())
             res.obligations += len(names)
             res.discharged += len(names)
@@ -790,7 +844,7 @@ def run(tier='quick', replay=None):
             violations.append({'key': key, 'what': 'model and implementation differ on %s (%s)' % (kind_of, d['check']),
                                'case': d['case'], 'check': d['check'], 'found_input': False,
                                'correspondence': 'Gen.C01model.%s' % {'unknowns': 'check_unknowns', 'entries': 'check_entries',
-                                                                      'solution': 'check_solution', 'I': 'check_report', 'V': 'vec_of'}.get(kind_of, kind_of)})
+                                                                      'solution': 'check_solution', 'I': 'check_report', 'V': 'vec_of', 'merge': 'LT.WireMerge.kern_okb', 'nodeidx': 'node index = image of the raw node'}.get(kind_of, kind_of)})
         for name, f, msg in res.failed_obl:
             violations.append({'key': 'obligation:' + name, 'what': 'Coq obligation %s in %s no longer checks' % (name, f),
                                'theorem': name, 'file': f, 'message': msg, 'found_input': False,
